@@ -30,12 +30,10 @@ func VPH_footnotes() {
 	}
 	// specification: numbers 1..m in order of first occurrence; equal texts share a number; "" is never cited
 	var distinct []string
-	hasLF := false
+	hasLF := false // some text contains LF immediately followed by '[' (KF-h)
 	for i, t := range texts {
-		for j := 0; j < len(t); j++ {
-			if t[j] == '\n' {
-				hasLF = true
-			}
+		for j := 0; j+1 < len(t); j++ {
+			hasLF = vp_Or(hasLF, vp_And(t[j] == '\n', t[j+1] == '['))
 		}
 		if t == "" {
 			vp_Assert(cites[i] == "", "an empty footnote is never cited")
